@@ -669,6 +669,34 @@ def _r019(ck, prog, cfg):
              "LRANGE and LTRIM resolve their index window differently: only range has %s; only trim has %s (an index below -len or beyond the "
              "end is clamped by one command and rejected or mis-placed by the other)" % (sorted(sa - sb), sorted(sb - sa)), fb[0].where(),
              detail="same clamps: %s" % sorted(sa))
+    # the rank windows of lists and sorted sets are one convention (start clamps to the head, a stop that resolves before the head
+    # selects nothing): wherever two of the four resolvers clamp the same quantity with the same operation, the bound is the same
+    Z = "redis::data::sorted_set::RedisSortedSet::"
+    sibs = [("list:range", fa[0]), ("list:trim", fb[0])]
+    for nm in ("range", "rev_range"):
+        fz = [f for f in prog.lib_fns() if f.id == Z + nm]
+        if len(fz) == 1:
+            sibs.append(("zset:" + nm, fz[0]))
+    ck.floor("R01.9:siblings" + _tag(cfg), len(sibs), 4)
+    tabs = []
+    for nm, f in sibs:
+        m = {}
+        for e in _clamp_sig(f):
+            if e[0] in ("max", "min") and len(e) == 3:
+                consts = [x for x in e[1:] if re.match(r"^-?\d+$", x)]
+                others = [x for x in e[1:] if not re.match(r"^-?\d+$", x)]
+                if len(consts) == 1 and len(others) == 1:
+                    m[(e[0], others[0])] = consts[0]
+        tabs.append((nm, f, m))
+    for i in range(len(tabs)):
+        for j in range(i + 1, len(tabs)):
+            (na, fa_, ma), (nb, fb_, mb) = tabs[i], tabs[j]
+            diff = sorted((k, ma[k], mb[k]) for k in ma if k in mb and ma[k] != mb[k])
+            ck.check(not diff, "R01.9", "window-bounds:%s~%s%s" % (na, nb, _tag(cfg)),
+                     "rank windows disagree on a clamp bound: %s (%s uses the first, %s the second): with the stop bound 0 instead of -1 a stop "
+                     "that resolves before the head selects the first element instead of nothing (LRANGE l 0 -100 on a 3-element list)"
+                     % (["%s(%s, %s|%s)" % (k[0], k[1], a, b) for k, a, b in diff], na, nb), fa_.where(),
+                     detail="shared clamps agree: %s" % sorted(k for k in ma if k in mb))
 
 
 def _r0110(ck, prog, cfg, meths):
